@@ -122,6 +122,10 @@ class Engine:
             o, m, _ci = value.x
             value = SV("val", Val.VPair(Val.VOpaque(z3.IntVal(zlib.crc32(m.qual.encode()))),
                                         to_val(o) if o is not None else VNone))
+        if kind == "val" and value.k == "list":
+            # a list / tuple of symbolic length stored in a dynamically typed field: kept as an opaque token (reads give
+            # an opaque value, on which list operations are outside the subset)
+            value = SV("val", Val.VOpaque(fresh("listobj", Int)))
         if kind == "val":
             st.heap[key] = z3.Store(self.field_array(st, key), obj_ref, to_val(value))
         elif kind == "set":
@@ -546,6 +550,23 @@ class Engine:
         if isinstance(tgt, ast.Attribute):
             obj = self.eval(tgt.value, st)
             self.set_attr(obj, tgt.attr, val, st)
+            return
+        if isinstance(tgt, (ast.Tuple, ast.List)) and any(isinstance(t, ast.Starred) for t in tgt.elts):
+            # a, *rest = xs   (one starred target, after plain ones; xs a list of symbolic length)
+            stars = [i_ for i_, t in enumerate(tgt.elts) if isinstance(t, ast.Starred)]
+            if len(stars) != 1 or stars[0] != len(tgt.elts) - 1 or val.k != "list":
+                raise Unsupported("starred unpack in this position")
+            k_ = len(tgt.elts) - 1
+            s2 = st.fork()
+            s2.assume(val.x < k_)
+            self.exc_paths.append((s2, Exc("ValueError")))
+            st.assume(val.x >= k_)
+            for i_ in range(k_):
+                self.assign(tgt.elts[i_], self.schema.refine(SV("val", z3.Select(val.t, i_), cls=val.cls)), st)
+            rest = fresh("rest", z3.ArraySort(Int, Val))
+            j_ = fresh("i", Int)
+            st.define(z3.ForAll([j_], z3.Implies(z3.And(0 <= j_, j_ < val.x - k_), z3.Select(rest, j_) == z3.Select(val.t, j_ + k_))))
+            self.assign(tgt.elts[k_].value, SV("list", rest, x=val.x - k_, cls=val.cls), st)
             return
         if isinstance(tgt, (ast.Tuple, ast.List)):
             items = self.unpack(val, len(tgt.elts), st, tgt)
